@@ -70,6 +70,32 @@ class Pairs(Mixed):
         return not (cell.endswith('skew|positive'))
 
 
+class ParallelLinePlane(Pairs):
+    """every primitive lattice normal n with |x| <= R x every primitive direction d with d.n = 0, |x| <= R:
+    a line exactly parallel to (or inside) an oblique plane, a cell that small alphabets under-populate."""
+
+    def __init__(self, R, chunk=6):
+        self.name = 'LnPl-parallel/R%d' % R
+        self.both = True
+        self.normals = A.directions(R, signed=False)
+        self.R = R
+        self._shards = [(i, min(i + chunk, len(self.normals))) for i in range(0, len(self.normals), chunk)]
+        self.total = 0
+
+    def scenes(self, shard):
+        dirs = A.directions(self.R, signed=False)
+        q = (1, 0, 2)
+        for n in self.normals[shard[0]:shard[1]]:
+            P = X.Pl(q, n)
+            for d in dirs:
+                if X.dot(d, n) != 0:
+                    continue
+                for off in ((1, 2, -1), (0, 0, 0)):
+                    L = X.Ln(X.add(q, off), d)
+                    yield (L, P)
+                    yield (P, L)
+
+
 def families(tier):
     if tier == 'quick':
         lpts, ppts, normals = A.B0, A.B1, A.D1
@@ -85,7 +111,9 @@ def families(tier):
         fams.append(Pairs('LnLn', pose, lines, lines, both_orders=False, chunk=8))
         fams.append(Pairs('PtPl', pose, points, planes, chunk=2))
         fams.append(Pairs('LnPl', pose, planes, lines, chunk=4))
-    return A.with_int_mode(fams, tier)
+    fams = A.with_int_mode(fams, tier)
+    fams.append(ParallelLinePlane(6 if tier == 'quick' else 8))
+    return fams
 
 
 def run(tier, seed):
@@ -93,7 +121,7 @@ def run(tier, seed):
     res = core.run_families('C10', fams, seed)
     res.rule = ('every pair of the documented type pairs over lattice points, lines through all ordered lattice point pairs, all distinct '
                 'lattice planes, under every pose, both argument orders and all call forms; non-trivial = not skew-generic')
-    res.alphabets = {f.name: f.total for f in fams}
+    res.alphabets = {f.name: (f.total or 'see cells') for f in fams}
     return res
 
 
